@@ -99,3 +99,16 @@ impl ProgramLines {
         lines
     }
 }
+
+#[cfg(feature = "verif-hooks")]
+impl ProgramLines {
+    pub(crate) fn verif_map_keys(&self) -> Vec<u64> {
+        let mut keys = self.numbered_lines.keys().copied().collect::<Vec<_>>();
+        keys.sort();
+        keys
+    }
+
+    pub(crate) fn verif_set_keys(&self) -> Vec<u64> {
+        self.sorted_line_numbers.iter().copied().collect()
+    }
+}
